@@ -17,7 +17,7 @@ CLAIMED = {
             'replaced by contracts that are verified against their bodies. The history quantifier is closed by induction (per-request step lemma + map-model lemma). '
             'The real block and context constructors own their storage (no sharing with the caller, between tables or between contexts).',
             'Sequential blocks backing four distinct tables (sparse blocks at block level in C18); A1-A10; z3/cvc5; pyvc translator; S-REG transcription. '
-            'Front-end dispatch to execute() is covered under C09/C12.', 'contract-based deductive verification (pyvc VC generation from /repo AST + z3/cvc5)', 'DESIGN.md section 4 C04'),
+            'Front-end dispatch to execute() is covered under C09/C12; FC 16 is also proved from the wire (decode contract verified against the real decode, plus an executable twin over constructed PDUs).', 'contract-based deductive verification (pyvc VC generation from /repo AST + z3/cvc5)', 'DESIGN.md section 4 C04'),
     'C05': ('proof', 'Lemmas over wire bytes (PDU -> ServerDecoder.decode -> execute) for every function code and reason: quantity outside limits -> 03, byte count '
             'contradicting quantity -> 03, FC5 value not 0000/FF00 -> 03, range outside table -> 02, unassigned function code -> 01, each with fc|0x80, and '
             'exception => all four tables unchanged, FC 23 writes only if both ranges are valid; contexts over sequential blocks and over sparse blocks (arbitrary key sets). Two known findings (FC5 value, FC15 truncated quantity) are '
@@ -27,7 +27,7 @@ CLAIMED = {
     'C01': ('proof', 'For every message class of the S-PDU table (units/codecs.py; 34 data classes + 34 diagnostic classes + exception response): '
             'encode() of an instance holding any valid field values is byte for byte the PDU of MODBUS AP v1.1b3, and the server/client decoder turns any '
             'spec-conformant PDU into an instance of the right class carrying exactly the wire values (decoder tables included). Loops are cut at '
-            'invariants; bit packing is proved against an LSB-first spec via a separately proved lemma. Five known findings are proved on the complement of their regions.',
+            'invariants; bit packing is proved against an LSB-first spec via a separately proved lemma. Five known findings are proved on the complement of their regions. The 43/14 response, whose encode decides what fits, is additionally proved against S-PAGE for object lists of any total size (1..4 objects).',
             'File-record codecs (FC 20/21) are BOUNDED units (0..3 record groups per message, decode loops unrolled; field values and data lengths symbolic) and never counted as proved; '
             'the 43/14 response codec likewise (0..3 objects; its paging is C20). '
             'S-PDU table is a transcription of the specification; A1-A10; struct/compat library models; z3/cvc5.',
@@ -40,7 +40,7 @@ CLAIMED = {
     'C13': ('proof', 'Decomposition of ModbusTransactionManager.execute along its call structure, each piece a lemma over the real code: the retry loop is cut at the '
             'invariant "frames written + retries left <= retries + 1" (variant: retries left), which gives at most 1 + retries transmissions and termination of the loop '
             'for every retries value and every transport behaviour; real _transact/_recv/_send under a transport that returns anything or raises write at most one frame, '
-            'connect before they write, catch transport errors and silence (closing the connection) and let nothing else escape; real processIncomingPacket of each framer, from any state on any bytes, lets '
+            'connect before they write, catch transport errors and silence (closing the connection) and let nothing else escape; what the serial framers hand to the client passed the unit filter (a frame for another unit is not delivered); real processIncomingPacket of each framer, from any state on any bytes, lets '
             'only ModbusIOException escape; ClientDecoder.decode lets nothing escape; given those, execute never raises, returns a message or an error object, leaves '
             'client.state == TRANSACTION_COMPLETE and no reply slot. Seven known findings (retry_on_empty alone never retries, retries=0 becomes 1, and per framing the '
             'exception classes that do escape on garbage, reply slot left behind). Retry options honoured and recovery after fault scripts: bounded units (see note).',
@@ -65,7 +65,7 @@ CLAIMED = {
     'C08': ('proof', 'Pairing logic of the real ModbusTransactionManager.execute for all four client framings (plus the UDP-style client): from any prior state '
             '(stale bytes in the framer, client state, transaction-id counter including the wrap, a reply slot left over from an earlier call) and a havoc-ed '
             'transport, the returned object is a ModbusIOException or a message the framer delivered during this call, handed over with an empty framer buffer, '
-            'carrying the request transaction id (TCP) / unit id (serial) and function code; an attempt that ends in silence closes the connection (a late reply cannot reach the next transaction). Every synchronous client constructor (base, TCP, TCP with a framer class, UDP, serial x framing) installs a DictTransactionManager bound to the client. The retry loop is cut (any number of retries); _transact and the '
+            'carrying the request transaction id (TCP) / unit id (serial) and function code; an attempt that ends in silence closes the connection (a late reply cannot reach the next transaction). Every synchronous client constructor (base, TCP, TCP with a framer class, UDP, serial x framing) installs a DictTransactionManager bound to the client; the real ClientDecoder is history-free for every response class (the same bytes decoded twice give the same fields and leave the first message alone). The retry loop is cut (any number of retries); _transact and the '
             'framer are replaced by contracts that are themselves established on the real code by C08/transact.<kind> (frame conditions of _transact) and '
             'C08/filter.<kind> (every delivered message carries the wire unit id, passed the unit filter, and on TCP the wire transaction id; receive loops cut). '
             'Five known findings (reply transaction id never compared, function code never compared, unit 0/255 accepts any unit, socket error path, left-over reply slot).',
@@ -75,14 +75,14 @@ CLAIMED = {
     'C09': ('proof', 'Each of the seven execute/send pairs (sync TCP/serial/UDP, asyncio TCP/UDP, Twisted TCP/UDP) is proved against S-SERVE for an arbitrary '
             'request (ids, function code, outcome of request.execute: normal / exception / raises), arbitrary hosted-unit sets, single/multi mode, '
             'broadcast and ignore_missing_slaves flags: exactly one frame per accepted request, byte-identical to MBAP(tid, uid, fc or fc|0x80, payload) with '
-            'the ids echoed; nothing for broadcast, absent-unit-with-ignore, no-response messages; 0x0B for absent units; 04 for datastore failures. A well-formed request frame of any body length (none included) alone on the wire reaches execute() exactly once, for all four framers (C09/accepted.*). Which responses are listen-only is decided on the real classes: Force Listen Only Mode yields a response that asks for silence, every other response class asks to be sent (C09/listen_only).',
+            'the ids echoed; nothing for broadcast, absent-unit-with-ignore, no-response messages; 0x0B for absent units; 04 for datastore failures. A well-formed request frame of any body length (none included) alone on the wire reaches execute() exactly once, for all four framers (C09/accepted.*). Which responses are listen-only is decided on the real classes: Force Listen Only Mode yields a response that asks for silence, every other response class asks to be sent (C09/listen_only); the response the real execute() of a read request returns can always be encoded and fits a PDU (C09/encodable.*).',
             'Per-connection ordering ("in request order") rests on the framer calling the callback once per frame in order (C06) - assumed here. '
             'socket.send/transport.write atomic (external). Broadcast lemmas unroll the loop over hosted units (0..3 units, symbolic ids). One known finding (Twisted UDP ignores should_respond).',
             'contract-based deductive verification (pyvc VC generation from /repo AST + z3/cvc5)', 'DESIGN.md section 4 C09'),
     'C10': ('proof', 'Routing clauses of S-SERVE for all seven front-ends over arbitrary hosted-unit sets (symbolic map): executed exactly once and only against '
             'context[unit_id]; absent unit: nothing executed, silence or 0x0B; single mode: every id reaches the one context; broadcast: executed once on every '
             'hosted unit, no response (hosted sets of 0..3 units, ids symbolic - bounded in the NUMBER of units); the unit filter _validate_unit_id against '
-            'its specification; every serving loop hands the framer all hosted units (+0 under broadcast); default-constructed slave contexts share no storage (real constructor); every server constructor serves the context object it was given, an empty one included (ownership obligation on the constructors).',
+            'its specification; every serving loop hands the framer all hosted units (+0 under broadcast); default-constructed slave contexts share no storage (real constructor); every server constructor serves the context object it was given, an empty one included (ownership obligation on the constructors); every serving loop and Twisted entry point hands the framer nothing but the hosted units (+0 under broadcast).',
             'Non-interference between units rests on execute() receiving only the addressed context object (proved) and contexts of distinct units being '
             'distinct objects (configuration assumption). One known finding (sync UDP handler never admits unit 0 for broadcast).',
             'contract-based deductive verification (pyvc VC generation from /repo AST + z3/cvc5)', 'DESIGN.md section 4 C10'),
@@ -90,7 +90,7 @@ CLAIMED = {
             'invariant, so all iterations) with the transport returning any bytes or raising and the framer raising ANY exception: no exception escapes, and '
             'after an exception the connection is closed or the framer reset; (b) execute() of all seven front-ends lets no exception escape and maps a '
             'datastore failure to exception 04; (c) Twisted entry points raise only what the framer raised; (e) for every write function code (5, 6, 15, 16, 22, 23) and ANY byte string after it: unless the body has exactly the length '
-            'its own count / byte-count fields prescribe (and those agree), decode + execute leaves all four tables unchanged (two known findings: trailing bytes ignored, FC 15 truncation); (f) the one request decoder with a while loop (FC 21) terminates on every byte string (loop variant); (g) a segment of at most 7 bytes at a Modbus/TCP receiver (real decoder, real execute) changes no cell.',
+            'its own count / byte-count fields prescribe (and those agree), decode + execute leaves all four tables unchanged (two known findings: trailing bytes ignored, FC 15 truncation); (f) the one request decoder with a while loop (FC 21) terminates on every byte string (loop variant); (g) whatever the body, a request answered with an exception response (or failing with an exception) has changed nothing; (h) a segment of at most 7 bytes at a Modbus/TCP receiver (real decoder, real execute) changes no cell.',
             'Reactor / event-loop behaviour around the proved callbacks is external (Twisted drops the connection on an exception leaving dataReceived). '
             'That a rejected PDU never reaches the store follows from execute being the framer callback, called only after decode returned a message (C07 gate units).',
             'contract-based deductive verification (pyvc VC generation from /repo AST + z3/cvc5)', 'DESIGN.md section 4 C12'),
@@ -102,20 +102,20 @@ CLAIMED = {
             'ownership / lock-invariant obligations (deductive, AST + call graph), part of the contract-based family', 'DESIGN.md section 4 C15'),
     'C17': ('proof', 'Relational: all seven front-ends are proved against the same S-SERVE contract (same frames, same executions for the same inputs), stream '
             'front-ends build a fresh framer per connection (proved on the real setup/connection_made/connectionMade), request execution has no suspension '
-            'point on the event-loop front-ends (ownership); threaded connections block without a receive timeout (a pause inside a frame is not an event on any front-end); two framers built by the real constructors share no state (what one receives, checks, advances over or resets leaves the buffer and header of the other alone). Interleavings of several connections are NOT explored (not applicable to this family).',
+            'point on the event-loop front-ends (ownership); threaded connections block without a receive timeout (a pause inside a frame is not an event on any front-end); two framers built by the real constructors share no state (what one receives, checks, advances over or resets leaves the buffer and header of the other alone); every front-end hands its framer the same acceptance list (the hosted units). Interleavings of several connections are NOT explored (not applicable to this family).',
             'Three known findings: Twisted UDP should_respond; threaded server executes requests without a lock (directed two-thread lost-update witness); '
             'datagram front-ends share one framer between peers.', 'contract-based deductive verification + ownership obligations', 'DESIGN.md section 4 C17'),
     'C20': ('proof', 'DeviceInformationFactory.get returns exactly the non-empty objects of the category from the requested id onward, ascending, with exact values '
             '(basic and regular categories: all 2^7 population patterns x all start ids - complete; extended: population patterns over objects 0,2,6,0x80,0x81,0xFF, private objects registered in ascending, descending and rotated order); '
             'ReadDeviceInformationResponse.encode emits exactly the longest prefix that keeps the PDU <= 253 bytes with the S-PAGE more-follows / next-object-id '
-            '(0..7 objects, symbolic ascending ids, values of any length 1..245, byte-exact); one chain step makes progress and points at the first unsent object, '
+            '(0..7 objects, symbolic ascending ids, values of any length 1..245, byte-exact); the identity table is what update() last said (a blank withdraws an object); one chain step makes progress and points at the first unsent object, '
             'so by induction the chain terminates and delivers every object once. One known finding (245-byte value never fits).',
             'Extended category bounded in the NUMBER of populated extended objects (3). Client-side decode of the response is covered by the bounded C01/C02 stand-in. '
             'S-PAGE transcription; A1-A10; z3/cvc5.', 'contract-based deductive verification (pyvc VC generation from /repo AST + z3/cvc5)', 'DESIGN.md section 4 C20'),
     'C16': ('proof', 'Contracts on the Twisted ModbusClientProtocol operations over the ghost map pending: tid -> deferred, each proved from an arbitrary pending map '
             '(0..3 other outstanding requests, symbolic pairwise-distinct ids, arbitrary tid counter): execute allocates (tid+1) mod 65536, writes the frame carrying '
             'it, files the returned deferred under it and touches nothing else; _handleResponse fires exactly pending[reply tid] once and removes it, an unknown id '
-            'fires nothing and leaves the framer (frames still buffered from the same segment) untouched; connectionLost fails every pending deferred once with a connection error and later requests fail at once; FIFO variant pairs in arrival order; the real constructor picks matching by transaction id exactly when the framer (given as class, instance or left out) is the MBAP one; connectionLost is proved for the arrival-order (serial) manager too.',
+            'fires nothing and leaves the framer (frames still buffered from the same segment) untouched; connectionLost fails every pending deferred once with a connection error and later requests fail at once; FIFO variant pairs in arrival order; the real constructor picks matching by transaction id exactly when the framer (given as class, instance or left out) is the MBAP one; connectionLost is proved for the arrival-order (serial) manager too; execute renumbers a request whatever id it already carries.',
             'Bounded in the NUMBER of other outstanding requests (<= 3; the untouched entries are symmetric). twisted Deferred / defer.fail / Failure are external '
             '(ghost firing log). One known finding (tid reuse after wrap while still pending).', 'contract-based deductive verification (pyvc VC generation from /repo AST + z3/cvc5)', 'DESIGN.md section 4 C16'),
     'C07': ('proof', 'Gate obligation per framer from an ARBITRARY framer state (any buffer, any header; the first loop iteration from an arbitrary state is the '
@@ -161,7 +161,7 @@ m = {
     'engines': [{'name': 'pyvc', 'path': 'pyvc/', 'serves_properties': sorted(CLAIMED),
                  'kind_free_text': 'AST->SMT verification-condition generator for the real /repo functions with sidecar contracts; z3 then cvc5; concrete replay and bounded twins under /venv/bin/python'}],
     'checks': [], 'not_applicable': [],
-    'notes': 'Exit codes: 0 held, 1 VIOLATION (replayed input, or no-failing-input-found against baseline-obligations.txt), 2 undecided without twin, 3 checker malfunction (a clause proved by the engine that fails on the real code in the executable twin is a VIOLATION with that input, and the proof of that unit is withdrawn). Known findings: known-findings.txt (+ findings/). Seeded changes: seeded/ (100 property-breaking, 30 behaviour-preserving under seeded/benign). DESIGN.md section 10 describes the checks as built.',
+    'notes': 'Exit codes: 0 held, 1 VIOLATION (replayed input, or no-failing-input-found against baseline-obligations.txt), 2 undecided without twin, 3 checker malfunction (a clause proved by the engine that fails on the real code in the executable twin is a VIOLATION with that input, and the proof of that unit is withdrawn). Known findings: known-findings.txt (+ findings/). Seeded changes: seeded/ (120 property-breaking, 48 behaviour-preserving under seeded/benign). DESIGN.md section 10 describes the checks as built.',
 }
 for pid in ALL:
     if pid in CLAIMED:
